@@ -279,6 +279,9 @@ class J2Case:
             def concrete(vals, i=i):
                 ci = self.conc_inputs(vals)
                 co, cc = self.real([ci[k] for k in self.names])
+                if getattr(self, 'replay_extra', None) is not None:      # replay-only reference values computed from the unmodified code
+                    co = dict(co)
+                    co.update(self.replay_extra([ci[k] for k in self.names], co))
                 ca, catoms = spec(ci, co, cc)
                 if isinstance(catoms, sym.Atom):
                     catoms = [catoms]
